@@ -451,6 +451,14 @@ def run_check(pid, tier, seed, replay=None):
         pid, res.evaluations, len(res.holds_fail), len(res.disagree), time.time() - t_start))
     violations = []
     driver = protocol.Driver()
+
+    def ask(op2, inp2, obs2):
+        # evaluate another driver op's holdsOn on a given observation (used by known_match predicates)
+        rep = driver.ask('%s l2 %s %s' % (op2, enc(inp2), enc(obs2)))
+        if isinstance(rep, Exc):
+            raise ValueError('driver rejected')
+        return rep[1]
+    prop.ASK = ask
     try:
         seen_min = set()
         known_hits = {}
